@@ -1,4 +1,4 @@
 SPECIFICATION Spec
-CONSTANT Positions = {"let", "assign", "arg", "ret", "field", "elem", "fieldassign", "methodarg", "closureret", "compound", "optional", "global"}
+CONSTANT Positions = {"let", "assign", "arg", "ret", "field", "elem", "fieldassign", "methodarg", "closureret", "compound", "optional", "global", "optarg", "optret", "optfield", "optassign"}
 INVARIANT EmitCase
 CHECK_DEADLOCK FALSE
